@@ -2,6 +2,7 @@
 buffer kind, with the parser object constructed at compile time and at run time; all results must agree."""
 import random, collections, traceback, re
 from . import common, ref_lr1, gen_grammar as gg, emit_grammar as eg, model
+from .capacity_check import stack_finding_applies
 from .grammar import Grammar, Rule, Term
 
 PRE = r'''
@@ -145,13 +146,13 @@ def _worker(spec):
                         if mm and 'SKIPPED' not in cl[ln]: hit = (int(mm.group(1)), int(mm.group(2)), ln); break
                 if hit:
                     g, inputs, ctx = items[hit[0]]; d, opt = inputs[hit[1]]
-                    keys = ['input:' + common.sha(g.key(), d, str(opt))[:16]] + ([STACK_SITE] if 'capacity' in e.diag else [])
+                    keys = ['input:' + common.sha(g.key(), d, str(opt))[:16]] + ([STACK_SITE] if 'capacity' in e.diag and stack_finding_applies(g, ref_lr1.build(g), d, opt) else [])
                     out['viol'].append((keys, 'grammar %s input %r options %d: parsing during constant evaluation is rejected by %s: %s' % (g.text(), d, opt, fl, e.diag[:300]),
                                         {'grammar': g.to_json(), 'input': d.hex(), 'opt': opt, 'compiler': fl, 'diag': e.diag[:1500]}))
                     cl[hit[2]] = 'constexpr long c%d = -222; /*CASE %d:%d SKIPPED*/' % (hit[1], hit[0], hit[1])
                     cur = '\n'.join(cl)
                 else:
-                    out['viol'].append((['site:constant-evaluation@compile'] + ([STACK_SITE] if 'capacity' in e.diag else []), 'generated program with constexpr parsers does not compile with %s: %s' % (fl, e.diag[:500]), {'diag': e.diag[:2000], 'grammars': spec['grammars']}))
+                    out['viol'].append((['site:constant-evaluation@compile'], 'generated program with constexpr parsers does not compile with %s: %s' % (fl, e.diag[:500]), {'diag': e.diag[:2000], 'grammars': spec['grammars']}))
                     break
         if exe is None: continue
         rc, so, se, to = common.run(exe, timeout=300)
@@ -188,7 +189,7 @@ def _worker(spec):
             keys = ['input:' + common.sha(g.key(), d, str(opt))[:16]]
             if any(threw for _, (_, _, threw) in vals) or -111 in allv:
                 msg = next((threw for _, (_, _, threw) in vals if threw), '')
-                if 'capacity' in (msg or ''): keys.append(STACK_SITE)
+                if 'capacity' in (msg or '') and stack_finding_applies(g, tb, d, opt): keys.append(STACK_SITE)
                 out['viol'].append((keys, 'grammar %s input %r options %d: a run-time parse threw (%s); results %s' % (g.text(), d, opt, msg, vals[0][1][0] if vals else None), {'grammar': g.to_json(), 'input': d.hex(), 'opt': opt}))
             elif len(allv) > 1:
                 out['viol'].append((keys, 'grammar %s input %r options %d (%s): results differ between constant evaluation / buffer kinds / construction modes / compilers: %s (order: constexpr; constexpr-built parser x {cstring,string,string_view,user}; run-time-built parser x same)' % (
